@@ -14,13 +14,13 @@
 \*   server, response = request payload; and the environment flushes the server together
 \*   with `clear` (otherwise stale responses would be matched with later requests by design).
 \* kind "zip": ArgumentsToResultsZipper: 2-entry argument FIFO + result Forwarder, no inputs.
-EXTENDS Naturals, Integers, Sequences, FiniteSets, TLC
+EXTENDS Naturals, Integers, Sequences, FiniteSets
 
 Ran(calls, m) == m \in DOMAIN calls
 B(x) == IF x THEN 1 ELSE 0
 Ports(cfg) == 1..cfg.ports
-InM(i) == "in" \o ToString(i)
-OutM(i) == "out" \o ToString(i)
+InM(i) == <<"in1", "in2", "in3", "in4">>[i]
+OutM(i) == <<"out1", "out2", "out3", "out4">>[i]
 Methods(cfg) ==
   IF cfg.kind = "ser" THEN {InM(i) : i \in Ports(cfg)} \cup {OutM(i) : i \in Ports(cfg)} \cup {"clear"}
   ELSE {"write_args", "write_results", "read", "peek_arg"}
@@ -29,8 +29,7 @@ Configs == {[kind |-> "ser", ports |-> 2, depth |-> d] : d \in {1, 2}} \cup {[ki
 \* requests carry the client in the value so that mis-delivery is visible: client i sends 2i-1, 2i
 ArgDom(cfg, m) ==
   IF cfg.kind = "ser"
-  THEN (IF \E i \in Ports(cfg) : m = InM(i)
-        THEN LET i == CHOOSE i \in Ports(cfg) : m = InM(i) IN {2 * i - 1, 2 * i} ELSE {0})
+  THEN (CASE m = "in1" -> {1, 2} [] m = "in2" -> {3, 4} [] m = "in3" -> {5, 6} [] m = "in4" -> {7, 8} [] OTHER -> {0})
   ELSE IF m = "write_args" THEN {1, 2} ELSE IF m = "write_results" THEN {3, 4} ELSE {0}
 InDom(cfg, st) ==
   IF cfg.kind = "ser"
@@ -40,6 +39,7 @@ InDom(cfg, st) ==
 \* q: pending requests (ser) / argument FIFO (zip, entries = plain values); full, val: result Forwarder (zip)
 CInit(cfg) == [q |-> <<>>, full |-> FALSE, val |-> 0]
 Unspec(cfg, st, m) == FALSE
+ResAny(cfg, st, m) == FALSE
 
 InCalls(cfg, calls) == {i \in Ports(cfg) : Ran(calls, InM(i))}
 OutCalls(cfg, calls) == {i \in Ports(cfg) : Ran(calls, OutM(i))}
@@ -54,7 +54,7 @@ Callable(cfg, st, m, arg, calls, inp) ==
          [] m = "write_results" -> ~st.full
          [] m = "read" -> Len(st.q) > 0 /\ (st.full \/ Ran(calls, "write_results"))
          [] OTHER -> Len(st.q) > 0
-Result(cfg, st, m, calls, inp) ==
+Result(cfg, st, m, calls, inp, obs) ==
   IF cfg.kind = "ser" THEN (IF \E i \in Ports(cfg) : m = OutM(i) THEN inp.pval ELSE 0)
   ELSE CASE m = "read" -> [args |-> st.q[1], results |-> IF st.full THEN st.val ELSE calls["write_results"]]
          [] m = "peek_arg" -> st.q[1]
